@@ -305,6 +305,8 @@ class Interp:
                 return None
             if isinstance(b, V) and b.tag == 'proj' and b.a.startswith('elem:'):
                 return None
+            if isinstance(b, V) and b.tag == 'attrval_field':
+                return b
             if isinstance(b, V) and b.tag == 'attrval':
                 nvs = [v for v in st.env.values() if isinstance(v, Name)]
                 names = None
@@ -579,11 +581,44 @@ class Interp:
         del self.ai.events[n:]
         return v
 
+    def value_sources(self, value_ast, st):
+        """Classify the variables a stored value is computed from: attrval (request attribute value) / other."""
+        out = []
+        if value_ast is None:
+            return out
+        funcs = set()
+        for n in ast.walk(value_ast):
+            if isinstance(n, ast.Call):
+                f = n.func
+                while isinstance(f, ast.Attribute):
+                    f = f.value
+                if isinstance(f, ast.Name):
+                    funcs.add(id(f))
+        bound = set()
+        for n in ast.walk(value_ast):
+            if isinstance(n, ast.comprehension):
+                for t in ast.walk(n.target):
+                    if isinstance(t, ast.Name):
+                        bound.add(t.id)
+        for n in ast.walk(value_ast):
+            if isinstance(n, ast.Name) and isinstance(n.ctx, ast.Load) and id(n) not in funcs and n.id not in bound:
+                v = st.env.get(n.id)
+                if isinstance(v, V) and v.tag in ('attrval', 'attrval_field'):
+                    out.append((n.id, 'attrval'))
+                elif isinstance(v, V) and v.tag == 'list' and isinstance(v.a, V) and v.a.tag in ('attrval', 'attrval_field'):
+                    out.append((n.id, 'attrval'))
+                else:
+                    out.append((n.id, 'other:%s' % (v.tag if isinstance(v, V) else type(v).__name__)))
+        return out
+
     def mutation(self, node_ast, var, field, how, value_ast, st):
         o = st.env.get(var)
         origin = o.origin if isinstance(o, Obj) else 'unknown'
+        nvs = [v for v in st.env.values() if isinstance(v, Name)]
+        names = sorted(nvs[0].names) if nvs and all(v.names == nvs[0].names for v in nvs) else None
         self.ev_event('mutation', node_ast, var=var, field=field, how=how, origin=origin, value=U(value_ast) if value_ast is not None else None,
-                      state=st.summary(), obj=o.describe() if isinstance(o, Obj) else None)
+                      state=st.summary(), obj=o.describe() if isinstance(o, Obj) else None, names=names,
+                      sources=self.value_sources(value_ast, st))
         if origin in ('copy',):
             return
         st.dirty = st.dirty | {origin}
